@@ -104,6 +104,7 @@ class ModuleInfo:
         self.functions: t.Dict[str, FuncInfo] = {}
         self.classes: t.Dict[str, ClassInfo] = {}
         self.consts: t.Dict[str, ast.AST] = {}
+        self.rebound: t.Set[str] = set()  # module level names assigned more than once / declared global somewhere
 
 
 def dotted(node) -> t.Optional[str]:
@@ -187,9 +188,19 @@ class Program:
             elif isinstance(st, ast.ClassDef):
                 self._scan_class(mi, st)
             elif isinstance(st, ast.Assign) and len(st.targets) == 1 and isinstance(st.targets[0], ast.Name):
+                if st.targets[0].id in mi.consts:
+                    mi.rebound.add(st.targets[0].id)
                 mi.consts[st.targets[0].id] = st.value
             elif isinstance(st, ast.AnnAssign) and isinstance(st.target, ast.Name) and st.value is not None:
+                if st.target.id in mi.consts:
+                    mi.rebound.add(st.target.id)
                 mi.consts[st.target.id] = st.value
+        for sub in ast.walk(mi.tree):
+            if isinstance(sub, ast.Global):
+                mi.rebound.update(sub.names)
+            elif isinstance(sub, ast.AugAssign) and isinstance(sub.target, ast.Name) and sub.target.id in mi.consts \
+                    and sub in mi.tree.body:
+                mi.rebound.add(sub.target.id)
 
     def _scan_nested(self, fi: FuncInfo):
         for sub in ast.walk(fi.node):
